@@ -131,7 +131,9 @@ func verifC08FullCache(now uint32) *pcache.MappingsCache {
 	return c
 }
 
-func verifC08NewEnv(cfg *verifC08Config, name string, cache *pcache.MappingsCache, mapped bool, salt int64) (*verifC08Env, error) {
+var verifC08Metas map[int]*format.MetricMetaValue // built once: metric descriptions are immutable
+
+func verifC08NewEnv(cfg *verifC08Config, name string, cache *pcache.MappingsCache, mapped bool, salt int64, lag int, full bool) (*verifC08Env, error) {
 	config := Config{}
 	agent := &Agent{
 		config:                            config,
@@ -156,23 +158,33 @@ func verifC08NewEnv(cfg *verifC08Config, name string, cache *pcache.MappingsCach
 			ShardKey:    int32(i) + 1,
 			rng:         rng,
 			CurrentTime: cfg.T0,
-			SendTime:    cfg.T0 - 2, // as MakeAgent
+			SendTime:    cfg.T0 - uint32(lag), // 2: as MakeAgent
 		}
 		for j := 0; j < superQueueLen; j++ {
 			shard.SuperQueue[j] = &data_model.MetricsBucket{}
 		}
 		shard.cond = sync.NewCond(&shard.mu)
 		shard.BucketsToPreprocess = make(chan *data_model.MetricsBucket, 1) // as MakeAgent
+		if full {                                                           // the preprocessor has not taken the previous second yet
+			shard.BucketsToPreprocess <- &data_model.MetricsBucket{Time: cfg.T0 - uint32(lag) - 1}
+		}
 		agent.Shards = append(agent.Shards, shard)
 	}
 	agent.initBuiltInMetrics()
-	env := &verifC08Env{name: name, mapped: mapped, agent: agent, metas: map[int]*format.MetricMetaValue{}, rnd: rand.New(uint64(salt))}
-	for _, ms := range cfg.Metrics {
-		m, err := verifC08Meta(ms, cfg.NShards)
-		if err != nil {
-			return nil, err
+	if verifC08Metas == nil {
+		metas := map[int]*format.MetricMetaValue{}
+		for _, ms := range cfg.Metrics {
+			m, err := verifC08Meta(ms, cfg.NShards)
+			if err != nil {
+				return nil, err
+			}
+			metas[ms.ID] = m
 		}
-		env.metas[ms.ID] = m
+		verifC08Metas = metas
+	}
+	env := &verifC08Env{name: name, mapped: mapped, agent: agent, metas: verifC08Metas, rnd: rand.New(uint64(salt))}
+	for _, ms := range cfg.Metrics {
+		m := env.metas[ms.ID]
 		// shard selection of the real code must be the specification's
 		key := data_model.Key{Metric: m.MetricID}
 		s1, ok, s2 := agent.shard(&key, m, nil)
@@ -491,13 +503,17 @@ func verifC08Clock(sec int, half bool, r *rand.Rand) time.Time {
 }
 
 func (rn *verifC08Runner) replay(t *testing.T, bi int, beh []verifkit.Step) (ok bool) {
-	envA, err := verifC08NewEnv(rn.cfg, "A:unmapped,canonical", pcache.NewMappingsCache(data_model.NewChunkedStorageNop(), 1<<20, 86400), false, int64(bi)*2+1)
+	lag, full := 2, false
+	if len(beh) > 0 && beh[0].Act() == "Init" {
+		lag, full = beh[0].Int("lag"), beh[0].Bool("full")
+	}
+	envA, err := verifC08NewEnv(rn.cfg, "A:unmapped,canonical", pcache.NewMappingsCache(data_model.NewChunkedStorageNop(), 1<<20, 86400), false, int64(bi)*2+1, lag, full)
 	if err != nil {
 		rn.res.Count("driver_errors", 1)
 		rn.res.Note("behaviour %d: %v", bi, err)
 		return false
 	}
-	envB, err := verifC08NewEnv(rn.cfg, "B:mapped,permuted", rn.cache, true, verifkit.Seed()*7919+int64(bi)*2+2)
+	envB, err := verifC08NewEnv(rn.cfg, "B:mapped,permuted", rn.cache, true, verifkit.Seed()*7919+int64(bi)*2+2, lag, full)
 	if err != nil {
 		rn.res.Count("driver_errors", 1)
 		rn.res.Note("behaviour %d: %v", bi, err)
@@ -514,6 +530,8 @@ func (rn *verifC08Runner) replay(t *testing.T, bi int, beh []verifkit.Step) (ok 
 		act := st.Act()
 		rn.res.Count("steps:"+act, 1)
 		switch act {
+		case "Init":
+			continue
 		case "Tick":
 			clock = verifC08Clock(st.Int("sec"), st.Bool("half"), crnd)
 			continue
@@ -693,7 +711,7 @@ func TestVerifC08Replay(t *testing.T) {
 	}
 	rn := &verifC08Runner{cfg: cfg, res: res, cache: verifC08FullCache(cfg.T0)}
 	{ // where does __timing_errors go
-		env, err := verifC08NewEnv(cfg, "probe", rn.cache, true, 0)
+		env, err := verifC08NewEnv(cfg, "probe", rn.cache, true, 0, 2, false)
 		if err != nil {
 			res.Count("driver_errors", 1)
 			res.Note("%v", err)
